@@ -1,7 +1,7 @@
 (* C05 at the level of whole sessions: exactly once, in order, delimited by the own completion.
    The reference is the framed read side polled n times in a row by anybody (fr_trace); C04's theorems say what
    those polls yield for a given byte stream and chunking. *)
-From TI Require Import Bytes Grammar Nom Interp Natives Tags Builders Client ClientProofs.
+From TI Require Import Bytes Grammar Nom Interp Natives Tags Builders Client ClientProofs Thm_Crlf Thm_Line Proofs_C09.
 From Coq Require Import Lia.
 
 (* n successive polls of the framed read side *)
@@ -237,3 +237,14 @@ Example session_example :
     rf_buf (c_rf c) = [] /\ List.concat (map (fun fs => List.concat (map fst (frames_of fs))) outs) = example_server
   end.
 Proof. vm_compute. repeat split; reflexivity. Qed.
+
+(* ---------------------------------------------------------------- frames end with CR LF *)
+(* through the codec: whatever frame decode cuts off ends with CR LF (C09's theorem about every accepted response) *)
+Lemma frame_ends_with_crlf_lemma buf raw v rest : decode buf = DFrame raw v rest -> exists w0, raw = w0 ++ [13; 10].
+Proof.
+  intro H. pose proof (decode_frame_shape buf raw v rest H) as Hshape. unfold decode in H.
+  destruct (parse buf) as [r v' u| | | | |] eqn:E; try discriminate.
+  destruct (accepted_response_ends_with_crlf_lemma buf r v' u E) as (w0 & Hw).
+  destruct (_ <=? _); [|discriminate]. injection H as _ _ <-.
+  exists w0. apply (app_inv_tail r). rewrite <- Hshape, Hw, <- app_assoc. reflexivity.
+Qed.
